@@ -23,6 +23,10 @@ Origins of a local value:
               (c) accumulator parameters: every call site in the package passes a FRESH value for it
                   (one level; at least one call site must exist);
               (d) the reviewed exemptions in EXEMPT (one line of reason each).
+  C27-ctor     every expression class with its own `__new__` is applied, from source, to results of itself and of its sibling
+               classes in the form-level object world (Python's rule included: `__init__` runs again on whatever `__new__`
+               returns if it is an instance of the class); every object that existed before the call keeps its structure
+               and no operand ends up containing itself (sa/rules/c27_ctor.py).
   C27-positive the analysis must still flag a tiny in-memory example (guards against a vacuous pass).
 """
 
@@ -775,6 +779,10 @@ def run(ctx) -> Report:
         rep.ok("C27-positive", pf[0], "the analysis flags the in-place write of the control example and accepts the copy idiom and the fresh accumulator")
     else:
         raise AnalysisError(f"positive control failed: flagged {sorted(v2)} (expected ['deep_helper', 'dirty'])")
+    # ---- constructors applied to their own results never modify their operands (sa/rules/c27_ctor.py) ----------
+    from .c27_ctor import run_ctor
+
+    rep.extra["nested constructor calls interpreted"] = run_ctor(ctx, rep)
     if A.n_functions < 1500:
         raise AnalysisError(f"only {A.n_functions} functions analysed")
     rep.extra["functions"] = A.n_functions
